@@ -52,10 +52,80 @@ def config_fn(rng):
     return cfg
 
 
+def format_dialect_entry_points(rng, rec):
+    """a dialect that takes over a type the format keeps native, handed in through every door: the call keyword of the
+    format mixin methods, Config.dialect, and the default_dialect of codec objects / one-shot functions - all agree."""
+    import msgpack
+    from mashumaro.codecs.msgpack import MessagePackDecoder, MessagePackEncoder
+    fam = Family("c15f")
+    try:
+        way = rng.choice(["both", "both", "serialize-only", "deserialize-only"])
+        reg = {"both": "{'serialize': bytes.hex, 'deserialize': bytes.fromhex}", "serialize-only": "{'serialize': bytes.hex}",
+               "deserialize-only": "{'deserialize': bytes.fromhex}"}[way]
+        tkey = rng.choice(["bytes", "bytes", "bytearray"])
+        if tkey == "bytearray":
+            reg = reg.replace("bytes.hex", "(lambda v: bytes(v).hex())").replace("bytes.fromhex", "bytearray.fromhex")
+        lazy = "        lazy_compilation = True\n" if rng.random() < 0.3 else ""
+        fam.exec_src(f"class HexD(Dialect):\n    serialization_strategy = {{{tkey}: {reg}}}\n"
+                     f"@dataclass\nclass MP(DataClassMessagePackMixin):\n    b: {tkey}\n    n: int = 0\n    bs: List[{tkey}] = field(default_factory=list)\n"
+                     f"    class Config(BaseConfig):\n        code_generation_options = [ADD_DIALECT_SUPPORT]\n{lazy}"
+                     f"@dataclass\nclass MPC(DataClassMessagePackMixin):\n    b: {tkey}\n    n: int = 0\n    bs: List[{tkey}] = field(default_factory=list)\n"
+                     f"    class Config(BaseConfig):\n        dialect = HexD\n{lazy}"
+                     f"@dataclass\nclass PL:\n    b: {tkey}\n    n: int = 0\n    bs: List[{tkey}] = field(default_factory=list)\n")
+        m = fam.module
+        mk = bytes if tkey == "bytes" else bytearray
+        val = dict(b=mk(b"\xde\xad"), n=1, bs=[mk(b"\x00\x01")])
+        docs = {}
+        routes = [("mixin(dialect=)", lambda: m.MP(**val).to_msgpack(dialect=m.HexD)), ("Config.dialect", lambda: m.MPC(**val).to_msgpack()),
+                  ("codec(default_dialect=)", lambda: MessagePackEncoder(m.MP, default_dialect=m.HexD).encode(m.MP(**val))),
+                  ("codec-plain-class(default_dialect=)", lambda: MessagePackEncoder(m.PL, default_dialect=m.HexD).encode(m.PL(**val)))]
+        rng.shuffle(routes)
+        for name, fn in routes:
+            rec.evaluation()
+            try:
+                docs[name] = ("ok", msgpack.unpackb(fn(), raw=False))
+            except Exception as e:
+                docs[name] = ("raise", f"{type(e).__name__}: {e}"[:120])
+        first = docs[routes[0][0]]
+        det = {"source": "".join(fam.sources[1:]), "way": way, "order": [r[0] for r in routes]}
+        if all(d == first for d in docs.values()) and first[0] == "ok":
+            rec.count("format_dialect_entry_points_agree")
+            rec.nontrivial(("format-dialect", way, tkey, "encode", tuple(r[0] for r in routes)))
+        else:
+            rec.violation("format-dialect:encode-entry-points-disagree", dict(det, documents={k: common.short(v, 200) for k, v in docs.items()}), {"scenario": "format-dialect", "way": way})
+        # decoding: every door reads the same document the same way
+        wire_b = val["b"].hex() if way in ("both", "deserialize-only") else bytes(val["b"])
+        wire_bs = [x.hex() if way in ("both", "deserialize-only") else bytes(x) for x in val["bs"]]
+        doc = msgpack.packb({"b": wire_b, "n": 1, "bs": wire_bs}, use_bin_type=True)
+        droutes = [("mixin(dialect=)", lambda: m.MP.from_msgpack(doc, dialect=m.HexD)), ("Config.dialect", lambda: m.MPC.from_msgpack(doc)),
+                   ("codec(default_dialect=)", lambda: MessagePackDecoder(m.MP, default_dialect=m.HexD).decode(doc)),
+                   ("codec-plain-class(default_dialect=)", lambda: MessagePackDecoder(m.PL, default_dialect=m.HexD).decode(doc))]
+        rng.shuffle(droutes)
+        outs = {}
+        for name, fn in droutes:
+            rec.evaluation()
+            try:
+                o = fn()
+                outs[name] = ("ok", (type(o.b).__name__, bytes(o.b), o.n, [(type(x).__name__, bytes(x)) for x in o.bs]))
+            except Exception as e:
+                outs[name] = ("raise", type(e).__name__)
+        exp = ("ok", (tkey, bytes(val["b"]), 1, [(tkey, bytes(x)) for x in val["bs"]]))
+        if all(o == exp for o in outs.values()):
+            rec.count("format_dialect_entry_points_agree")
+            rec.nontrivial(("format-dialect", way, tkey, "decode", tuple(r[0] for r in droutes)))
+        else:
+            rec.violation("format-dialect:decode-entry-points-disagree", dict(det, outcomes={k: common.short(v, 200) for k, v in outs.items()}, expected=common.short(exp, 200)),
+                          {"scenario": "format-dialect", "way": way})
+    finally:
+        fam.dispose()
+
+
 def run_case(seed, tier, rec, st):
     from mashumaro.codecs.basic import BasicDecoder, BasicEncoder
     import mashumaro.codecs.basic as mbasic
     rng = random.Random(seed)
+    if rng.random() < 0.04:
+        return format_dialect_entry_points(rng, rec)
     fam = Family("c15", future_annotations=rng.random() < 0.1)
     other = None
     try:
@@ -117,6 +187,17 @@ def run_case(seed, tier, rec, st):
         tsrc = t[1] if t[0] == "raw" else tast.render(t)
         ns = fam.module.__dict__
         T = eval(tsrc, ns) if t[0] == "raw" else common.eval_type(fam, t)
+        if t[0] != "raw" and rng.random() < 0.5:
+            # history: the (plain) ANCESTORS got compiled methods of their own first, as members of a mixin class; a
+            # subclass is still (de)serialized by its own field table through every entry point
+            for k, A in enumerate(common.ancestor_classes(fam, t)):
+                try:
+                    fam.exec_src(f"@dataclass\nclass AncHolder{k}(DataClassDictMixin):\n    a: Optional[{A.__name__}] = None\n    l: List[{A.__name__}] = field(default_factory=list)\n")
+                    h = getattr(fam.module, f"AncHolder{k}")
+                    h.from_dict(h().to_dict())
+                    rec.count("history_ancestor_compiled_as_member_first")
+                except Exception:
+                    pass
         try:
             enc, dec = BasicEncoder(T), BasicDecoder(T)
         except Exception as e:
